@@ -315,9 +315,9 @@ Qed.
 Section SetupFacts.
 Variable b : board.
 Hypothesis HS : Setup b.
-Let p := abs_board b.
-Let me := stm b.
-Let k := king_square b me.
+Local Notation p := (abs_board b).
+Local Notation me := (stm b).
+Local Notation k := (king_square b (stm b)).
 
 Lemma su_k_lt : k < 64.
 Proof. exact (proj1 (one_king_bit b me (su_cons b HS) (su_king b HS me))). Qed.
@@ -329,7 +329,7 @@ Lemma su_kingsq : kingsq p = k.
 Proof. unfold kingsq. change (turn p) with me. rewrite su_king_sq. reflexivity. Qed.
 Lemma su_has_king s : s < 64 -> has p s King me = (s =? k).
 Proof.
-  intro Hs. unfold p. rewrite (has_abs b s King me (su_cons b HS) Hs). cbn [pieces].
+  intro Hs. rewrite (has_abs b s King me (su_cons b HS) Hs). cbn [pieces].
   rewrite <- N.land_spec, su_kingbit, TablesLib.testbit_bit. apply N.eqb_sym.
 Qed.
 Lemma su_at_king : at_ p k = Some (King, me).
@@ -346,8 +346,29 @@ Proof. apply (in_check_gen p (comb b) su_occ me k su_king_sq su_k_lt). Qed.
 Lemma su_checkers : (checkers b =? 0) = negb (in_check p me).
 Proof.
   pose proof (canonical_checkers_in_check b (su_can b HS) (su_king b HS (stm b)) (su_apart b HS)) as H.
-  fold p me in H. destruct (N.eqb_spec (checkers b) 0) as [E|E].
+  destruct (N.eqb_spec (checkers b) 0) as [E|E].
   - destruct (in_check p me); [|reflexivity]. exfalso. apply (proj2 H); [reflexivity|exact E].
   - rewrite (proj1 H E). reflexivity.
 Qed.
 End SetupFacts.
+
+(** ** 5. The successor's placement, by kind of move *)
+Definition moved_piece (p:pos) (m:move) : ptype :=
+  match at_ p (src m) with Some (t,_) => t | None => Pawn end.
+Lemma apply_placement_plain p m : is_ep p m = false -> is_castle p m = false -> promo m = None ->
+  placement (apply p m)
+  = updN (updN (placement p) (src m) None) (dst m) (Some (moved_piece p m, turn p)).
+Proof. intros H1 H2 H3. unfold apply, moved_piece. cbn [placement]. rewrite H1, H2, H3. reflexivity. Qed.
+Lemma apply_placement_ep p m : is_ep p m = true -> is_castle p m = false -> promo m = None ->
+  placement (apply p m)
+  = updN (updN (updN (placement p) (src m) None) (dst m) (Some (moved_piece p m, turn p)))
+         (rank_of (src m) * 8 + file_of (dst m)) None.
+Proof. intros H1 H2 H3. unfold apply, moved_piece. cbn [placement]. rewrite H1, H2, H3. reflexivity. Qed.
+Lemma apply_placement_castle p m : is_ep p m = false -> is_castle p m = true -> promo m = None ->
+  placement (apply p m)
+  = let b2 := updN (updN (placement p) (src m) None) (dst m) (Some (moved_piece p m, turn p)) in
+    let r := rank_of (src m) in
+    if file_of (dst m) =? 6
+    then updN (updN b2 (r*8+7) None) (r*8+5) (Some (Rook, turn p))
+    else updN (updN b2 (r*8) None) (r*8+3) (Some (Rook, turn p)).
+Proof. intros H1 H2 H3. unfold apply, moved_piece. cbn [placement]. rewrite H1, H2, H3. reflexivity. Qed.
